@@ -20,6 +20,8 @@
 #include <pthread.h>
 #include <stdint.h>
 #include <unistd.h>
+#include <fcntl.h>
+#include <sys/mman.h>
 #include "qlibc.h"
 #include "vfc.h"
 
@@ -59,7 +61,7 @@ static bool build(ctx_t *c, int kind, int n, int cfg) {
     switch (kind) {
     case K_HASH: c->hash = qhashtbl((cfg & 2) ? 1 : 7, ts ? QHASHTBL_THREADSAFE : 0); if (!c->hash) return false;
         for (int i = 0; i < n; i++) if (!c->hash->putstr(c->hash, key(i), elem(i))) return false; break;
-    case K_LISTTBL: c->ltbl = qlisttbl((ts ? QLISTTBL_THREADSAFE : 0) | ((cfg & 2) ? QLISTTBL_UNIQUE : 0) | ((cfg & 4) ? QLISTTBL_LOOKUPFORWARD : 0)); if (!c->ltbl) return false;
+    case K_LISTTBL: c->ltbl = qlisttbl((ts ? QLISTTBL_THREADSAFE : 0) | ((cfg & 2) ? QLISTTBL_UNIQUE : 0) | ((cfg & 4) ? QLISTTBL_LOOKUPFORWARD : 0) | ((n & 1) ? QLISTTBL_INSERTTOP : 0));   /* odd states: insert-at-top tables */ if (!c->ltbl) return false;
         for (int i = 0; i < n; i++) if (!c->ltbl->putstr(c->ltbl, key(i % 5), elem(i))) return false; break;
     case K_LIST: c->list = qlist(ts ? QLIST_THREADSAFE : 0); if (!c->list) return false;
         for (int i = 0; i < n; i++) if (!c->list->addlast(c->list, elem(i), 8)) return false; break;
@@ -141,8 +143,14 @@ static res_t lt_getmulti(ctx_t *c, int v) { size_t n = 0; res_t r; errno = 0; ql
 static res_t lt_walk(ctx_t *c, int v) { qlisttbl_obj_t o; memset(&o, 0, sizeof o); res_t r; r.val = VF_H0; r.ok = true; int g = 0; const char *nm = v ? key(0) : NULL;
     while (1) { errno = 0; if (!c->ltbl->getnext(c->ltbl, &o, nm, true)) { r.err = errno; r.ok = r.err != ENOMEM; break; } r.val = vf_hash(o.name, strlen(o.name), r.val); r.val = vf_hash(o.data, o.size, r.val); free(o.name); free(o.data); if (++g > 200) break; } return r; }
 static res_t lt_sort(ctx_t *c, int v) { (void)v; res_t r; errno = 0; c->ltbl->sort(c->ltbl); r.err = errno; r.ok = r.err != ENOMEM; r.val = 0; return r; }
+static char LOADPATH[64], SAVEPATH[64];
+static res_t lt_load(ctx_t *c, int v) { res_t r; errno = 0; ssize_t n = c->ltbl->load(c->ltbl, LOADPATH, '=', v == 0); r.err = errno; r.ok = n >= 0; r.val = (uint64_t)n; return r; }
+static res_t lt_save(ctx_t *c, int v) { res_t r; errno = 0; bool b = c->ltbl->save(c->ltbl, SAVEPATH, '=', v == 0); r.err = errno; r.ok = b; r.val = 0;
+    if (b) { r.val = VF_H0;     /* what a later load() would see: the lines that are not comments (the header comment carries a time stamp); read with harness-owned memory */
+        int fd = open(SAVEPATH, O_RDONLY); char *t = hm_alloc(65536); ssize_t got = fd >= 0 ? read(fd, t, 65535) : -1; if (fd >= 0) close(fd); if (got < 0) got = 0; t[got] = 0;
+        for (char *l = t; *l; ) { char *e = strchr(l, '\n'); size_t n = e ? (size_t)(e - l) : strlen(l); if (n && l[0] != '#') r.val = vf_hash(l, n, r.val); l += n + (e ? 1 : 0); } hm_free(t); } return r; }
 static op_t OPS_LISTTBL[] = {{"put", 2, lt_put}, {"putstr", 2, lt_putstr}, {"putstrf", 2, lt_putstrf}, {"putint", 2, lt_putint}, {"get(newmem)", 2, lt_get}, {"getstr(newmem)", 2, lt_getstr}, {"getint", 2, lt_getint},
-    {"getmulti", 4, lt_getmulti}, {"getnext(newmem)", 2, lt_walk}, {"sort", 1, lt_sort}, {NULL, 0, NULL}};
+    {"getmulti", 4, lt_getmulti}, {"getnext(newmem)", 2, lt_walk}, {"sort", 1, lt_sort}, {"load", 2, lt_load}, {"save", 2, lt_save}, {NULL, 0, NULL}};
 
 /* list */
 static int pos_of(ctx_t *c, int v) { return v == 0 ? 0 : v == 1 ? c->n / 2 : c->n ? c->n - 1 : 0; }
@@ -253,6 +261,8 @@ static void enumerate_op(int kind, op_t *o, int v, int n, int cfg) {
           vf_distinct("distinct", vf_hash(nm, strlen(nm), VF_H0) ^ (uint64_t)((((v * 64 + n) * 16 + cfg) * 64 + k) * 2 + mode)); }
         uint64_t dA = digest(&A);
         if (structure_problem) viol(KNAME[kind], o->name, "invariant", "after the injected failure: %s", structure_problem);
+        else if (kind == K_LISTTBL && (A.ltbl->unique != B.ltbl->unique || A.ltbl->caseinsensitive != B.ltbl->caseinsensitive || A.ltbl->keepsorted != B.ltbl->keepsorted || A.ltbl->inserttop != B.ltbl->inserttop || A.ltbl->lookupforward != B.ltbl->lookupforward))
+            viol(KNAME[kind], o->name, "options-changed", "the call (%s, errno %d) left the table with different option flags (inserttop %d, was %d): later operations do not behave normally (k=%ld)", rA.ok ? "success" : "failure", rA.err, (int)A.ltbl->inserttop, (int)B.ltbl->inserttop, k);
         else if (lock_left_held(&A)) viol(KNAME[kind], o->name, "lock-held-after-failure", "the call returned (%s, errno %d) with the container's lock still held: a second thread can not take it (k=%ld)", rA.ok ? "success" : "failure", rA.err, k);
         else if (!rA.ok) {
             vf_count("oom_reported_failure", 1);
@@ -330,6 +340,9 @@ int main(int argc, char **argv) {
     vf_init(argc, argv, "h_oom");
     if (strcmp(VF.prop, "C15")) { fprintf(stderr, "h_oom: unsupported property %s\n", VF.prop); return 2; }
     vf_ledger_enable(true);
+    { int fd = memfd_create("h_oom-load", 0), fd2 = memfd_create("h_oom-save", 0); if (fd < 0 || fd2 < 0) { fprintf(stderr, "h_oom: memfd_create failed\n"); return 2; }
+      static const char doc[] = "la=1\n  lb = two words \n# comment\n\nk000=%41%3d\nlc=x\n"; if (write(fd, doc, sizeof doc - 1) != (ssize_t)(sizeof doc - 1)) return 2;
+      snprintf(LOADPATH, sizeof LOADPATH, "/proc/self/fd/%d", fd); snprintf(SAVEPATH, sizeof SAVEPATH, "/proc/self/fd/%d", fd2); }
     static const int STATES[5] = {0, 1, 2, 7, 40};
     long caseno = 0;
     if (vf_mine(caseno)) { vf_case_begin(caseno, "constructors"); constructors(caseno); }
